@@ -61,3 +61,33 @@ CLAIMS["C07"] = (
     "4, 6/C07", TRUSTED + "; a comparison rejects only when the residues of two defined finite values differ, so it "
     "can miss but not invent a difference; points where a needed root is not representable are not decisive",
     "TLA+ denotational semantics (exact + modular evaluation) + TLC trace validation")
+
+CLAIMS["C04"] = (
+    "model_checking",
+    "TLC enumerates multisets of exact operands (28-atom alphabet) - all pairs, a seeded random subset of triples "
+    "(all triples in the thorough tier) - in every permutation, both bracketings and through the n-ary entry "
+    "point for add and mul, all triples over 11 values for max/min and over 9 relational atoms for and/or; TLC "
+    "demands that all variants of one case are one and the same dumped object and that its value is the "
+    "sum/product of the operand values",
+    "6/C04", TRUSTED + "; structural identity is decided on dumps whose unordered containers are sorted by their own "
+    "text, independent of the library's hash order and comparison functions",
+    "TLA+ generated operand multisets + TLC trace validation (structural identity and value)")
+CLAIMS["C08"] = (
+    "model_checking",
+    "TLC enumerates for every function constructor of the statement the arguments at which it evaluates or "
+    "rewrites and where the specification's table of mathematical facts (module Func: special angles via the "
+    "24th roots of unity in GF(p), inverse tables, hyperbolic functions at integers through E, logs of smooth "
+    "rationals, gamma/zeta/eta/polygamma/beta at (half-)integers, rounding, sign, abs, conjugate, max/min, "
+    "kronecker_delta, levi_civita, primepi, primorial) knows the exact value; each result's value is compared "
+    "with the function applied to the argument value; the table checks itself in MC_ValSelf",
+    "6/C08", TRUSTED + "; arguments whose value is not in the tables (e.g. sin(1)) are not decisive",
+    "TLA+ function-fact tables + denotational semantics + TLC trace validation")
+CLAIMS["C09"] = (
+    "model_checking",
+    "TLC enumerates sums, products and integer powers of sums (two levels over the alphabet, a seeded random third "
+    "level) and pairs of recipes equal as polynomials; for each, expand(e) must keep the value (polynomial "
+    "identity testing in GF(p) at six points), equal expand(expand(e)), satisfy the structural predicate "
+    "IsExpanded of module Expand, and equal polynomials must expand to one object",
+    "6/C09", TRUSTED + "; identity of polynomials is established by value at 6 points in two prime fields "
+    "(Schwartz-Zippel), not by a symbolic normal form",
+    "TLA+ structural predicate + modular polynomial identity testing + TLC trace validation")
